@@ -21,6 +21,10 @@ def init_walk_jobs(tier):
                 witnesses=['set-up completed'],functions=['vorbis_encode_setup_setting','vorbis_encode_setup_init','vorbis_encode_map_n_res_setup','vorbis_encode_residue_setup','vorbis_encode_floor_setup','vorbis_encode_global_stereo','vorbis_encode_global_psych_setup','vorbis_encode_psyset_setup','vorbis_encode_tonemask_setup','vorbis_encode_compand_setup','vorbis_encode_peak_setup','vorbis_encode_noisebias_setup','book_dup_or_new','setting_to_approx_bitrate','vorbis_info_clear'],
                 models=['real lib/modes/*.h tables','registry free hooks release exactly their argument','get_setup_template contract (tmpl-*)'],tags=['C13'],
                 bounds='template %d of %d, setting interval %d of %d, fraction case %d of {0,.5,largest float below 1,clamp}, managed=%d; channels/rate anything the template admits; ctl-settable fields arbitrary in their enforced ranges'%(ti,len(M),i_s,m,dk,mg),weight=2))
+    for ti,m in enumerate(M):
+        if q and ti not in (0,1,5,11,16): continue
+        J.append(Job('compand-idx-t%d'%ti,'C15/init_walk.c',defs=['-DTI=%d'%ti,'-DCOMPAND'],unwind=42,object_bits=12,solver='kissat',witnesses=['float setting'],functions=['vorbis_encode_compand_setup'],
+            models=['real lib/modes/*.h tables','get_setup_template contract (tmpl-*)'],bounds='template %d, ANY setting the template selection can hand over (float in [0,%d) or a clamp value), any block 0..3, short or long mapping'%(ti,m)))
     return J
 def jobs(tier):
     J=[]
